@@ -89,6 +89,14 @@ Theorem random_streams_seeded :
 Proof. exact random_streams_seeded_lemma. Qed.
 Print Assumptions random_streams_seeded.
 
+(* premise of S6: otsu, entropy, otsu3, entropy3 select the split where the score EQUALS its minimum (no tolerance:
+   a tolerance is not scale invariant) — regenerated from otsu.py in normalised form *)
+Theorem otsu_selects_exact_minimum :
+  forallb (fun u => selection_ok (snd u)) otsu_selection = true /\
+  map fst otsu_selection = ["otsu"; "entropy"; "otsu3"; "entropy3"]%string.
+Proof. exact otsu_selects_exact_minimum_lemma. Qed.
+Print Assumptions otsu_selects_exact_minimum.
+
 (* soundness of the checker that is evaluated on get_threshold's actual return values *)
 Theorem check_thresholds_sound : forall (mul : Q -> Q -> Q) (cast : Q -> Q) lo hi g band ts,
   check_thresholds mul cast lo hi g band ts = true ->
